@@ -35,9 +35,6 @@ def _forcing(f):
 
 
 def install(world):
-    for k in list(M):
-        if k.startswith(("std::option::Option::", "std::result::Result::")) and not getattr(M[k], "_forcing", False):
-            M[k] = _forcing(M[k]); M[k]._forcing = True
     world.models.update(M)
     world.generic_models.update(G)
     world.ext_structs.update({"Complex": ["re", "im"], "Range": ["start", "end"], "RangeInclusive": ["start", "end", "exhausted"],
@@ -1048,7 +1045,9 @@ def checked_arith(op, other_unsigned=False):
         ty = _int_ty(path)
         bty = ("u" + ty[1:]) if other_unsigned else ty
         r = {"Add": lambda x, y: x + y, "Sub": lambda x, y: x - y, "Mul": lambda x, y: x * y}[op](_as_int(a, ty), _as_int(b, bty))
-        return sym_option(_fits(r, ty), _wrap(m, op, a, b, ty))
+        o = sym_option(_fits(r, ty), _wrap(m, op, a, b, ty))
+        if o.tag is None: m.force_tag(o)          # the Option / Result method models read a concrete tag: decide it here, by forking
+        return o
     f.wants_path = True
     return f
 
@@ -1069,7 +1068,9 @@ def g_try_from(m, path, v):
     j = find_trait_end(rest)
     src = base_name(rest[rest.index("<") + 1:j - 1]) if "<" in rest[:j] else None
     if dst in INT_BITS and src in INT_BITS and dst != "bool" and src != "bool":
-        return sym_result(_fits(_as_int(v, src), dst), m.cast(v, src, dst, "IntToInt"), Agg("TryFromIntError", None, [UNIT]))
+        o = sym_result(_fits(_as_int(v, src), dst), m.cast(v, src, dst, "IntToInt"), Agg("TryFromIntError", None, [UNIT]))
+        if o.tag is None: m.force_tag(o)
+        return o
     return NotImplemented
 
 
